@@ -3090,15 +3090,15 @@ Proof.
   intros ext f b' G H rho C v R. unfold a2a_guard in G. unfold a2a in H.
   destruct (fun_reserved f); [discriminate|]. inv_bind H. inv_bind H. inv_bind H.
   unfold rw_fun in Ha1. inv_bind Ha1. inv_bind Ha1. destruct a3 as [b3 st3]. inv_bind Ha1. inversion Ha1; subst.
-  destruct C as [C Cb].
-  set (plen := plen_of f) in *. set (pbool := pbool_of f) in *.
-  destruct (fold_list_sound plen pbool ext user_name [] _ _ G Ha) as (E1 & G1).
-  destruct (multi_list_sound plen (prot_of_user f) rho C pbool ext [] _ _ G1 Ha0) as (G2 & B2).
+  destruct C as (C & Cb & Ci).
+  set (plen := plen_of f) in *. set (pbool := pbool_of f) in *. set (pint := pint_of f) in *.
+  destruct (fold_list_sound plen pbool pint ext user_name [] _ _ G Ha) as (E1 & G1).
+  destruct (multi_list_sound plen (prot_of_user f) rho C pbool pint ext [] _ _ G1 Ha0) as (G2 & B2).
   pose proof (multi_list_notup _ _ Ha0) as N2.
   assert (S0 : st_ok plen (init_state (f_args f))).
   { intros z n Pa. apply (plen_of_inv _ _ _ Pa). }
-  destruct (rw_list_sound plen (prot_of_user f) rho C pbool Cb ext _ _ _ _ G2 N2 S0 Ha3) as (_ & _ & G3 & B3 & _).
-  destruct (fold_list_sound plen pbool ext anyn [] _ _ G3 H) as (E4 & _).
+  destruct (rw_list_sound plen (prot_of_user f) rho C pbool Cb pint Ci ext _ _ _ _ G2 N2 S0 Ha3) as (_ & _ & G3 & B3 & _).
+  destruct (fold_list_sound plen pbool pint ext anyn [] _ _ G3 H) as (E4 & _).
   assert (J0 : Inv plen rho rho) by (intros z _; reflexivity).
   unfold run in *. rewrite E4 in R.
   destruct (exec_list ext a1 rho) as [[r3 [v3|]]|] eqn:X3; try discriminate. inversion R; subst v3.
@@ -3266,20 +3266,31 @@ Proof.
   intro H. apply andb_true_iff in H. destruct H as [H _]. rewrite H. eauto.
 Qed.
 
+Lemma pint_plen f a : pint_of f a = true -> exists n, plen_of f a = Some n.
+Proof.
+  unfold pint_of, plen_of. destruct (assoc (tys (init_state (f_args f))) a) as [[e|]|]; try discriminate.
+  destruct e; try discriminate. destruct e1; try discriminate. destruct e2; try discriminate.
+  intro H. apply andb_true_iff in H. destruct H as [H _]. rewrite H. eauto.
+Qed.
+
 Theorem conforms_check f rho : conforms_b f rho = true -> conforms f rho.
 Proof.
   unfold conforms_b, conforms. intro H.
   assert (K : forall a n, plen_of f a = Some n ->
               exists vs, rho a = Some (VTup vs) /\ List.length vs = n /\
-                         (pbool_of f a = true -> forallb is_vbool vs = true)).
+                         (pbool_of f a = true -> forallb is_vbool vs = true) /\
+                         (pint_of f a = true -> forallb is_vint vs = true)).
   { intros a n Pa. destruct (plen_of_inv _ _ _ Pa) as (_ & l & Hl & _).
     apply assoc_in in Hl. unfold init_state in Hl. simpl in Hl.
     rewrite map_rev, map_map in Hl. simpl in Hl. apply in_rev in Hl.
     rewrite forallb_forall in H. specialize (H a Hl). rewrite Pa in H.
-    destruct (rho a) as [[| |vs]|]; try discriminate. apply andb_true_iff in H. destruct H as [H1 H2].
-    apply Nat.eqb_eq in H1. exists vs. split; auto. split; auto.
-    intro Pb. rewrite Pb in H2. exact H2. }
-  split.
+    destruct (rho a) as [[| |vs]|]; try discriminate. apply andb_true_iff in H. destruct H as [H H3].
+    apply andb_true_iff in H. destruct H as [H1 H2].
+    apply Nat.eqb_eq in H1. exists vs. split; auto. split; auto. split.
+    - intro Pb. rewrite Pb in H2. exact H2.
+    - intro Pi. rewrite Pi in H3. exact H3. }
+  split; [|split].
   - intros a n Pa. destruct (K a n Pa) as (vs & E & L & _). eauto.
-  - intros a Pb. destruct (pbool_plen _ _ Pb) as (n & Pa). destruct (K a n Pa) as (vs & E & _ & B). eauto.
+  - intros a Pb. destruct (pbool_plen _ _ Pb) as (n & Pa). destruct (K a n Pa) as (vs & E & _ & B & _). eauto.
+  - intros a Pi. destruct (pint_plen _ _ Pi) as (n & Pa). destruct (K a n Pa) as (vs & E & _ & _ & B). eauto.
 Qed.
